@@ -6,9 +6,9 @@ Export schema as SDL.
 import itertools
 from typing import Any, Sequence, Union
 
-from .._string_utils import wrapped_lines
+from .._string_utils import parse_block_string, wrapped_lines
 from .._utils import flatten
-from ..lang import print_ast
+from ..lang import ast as _ast, print_ast
 from ..schema import (
     SPECIFIED_DIRECTIVES,
     SPECIFIED_SCALAR_TYPES,
@@ -162,11 +162,25 @@ class ASTSchemaPrinter:
                 + indent
             )
 
-        return '%s%s"""%s"""\n' % (
-            "\n" if indent and not first_in_block else "",
-            indent,
-            body,
-        )
+        prefix = "\n" if indent and not first_in_block else ""
+
+        # The block form cannot carry every string (leading / trailing blank
+        # lines, indentation common to all lines, a trailing backslash or quote,
+        # control characters): fall back to a quoted string when parsing the
+        # block back would not give the description.
+        text = "\n".join(lines)
+        if (
+            body.endswith("\\")
+            or parse_block_string(body.replace('\\"""', '"""')) != text
+            or any(c < " " and c not in "\t\n" for c in text)
+        ):
+            return "%s%s%s\n" % (
+                prefix,
+                indent,
+                print_ast(_ast.StringValue(value=text)),
+            )
+
+        return '%s%s"""%s"""\n' % (prefix, indent, body)
 
     def print_deprecated(
         self, field_or_enum_value: Union[Field, EnumValue]
